@@ -77,7 +77,29 @@ GRV_CMD(scale) {
                 du.push_back(0); px.push_back(0); du.push_back(0); px.push_back(0);
                 range &= std::fabs(p0.advX) < 60000.f && std::fabs(p1.advX) < 1.9e6f;
                 if (!range) ++skipped;
-                else { vj::W w; w.str("font", font.substr(font.rfind('/') + 1)).i("line", ln).i("upem", upem).i("p2", p2).str("s0", structure(p0)).str("s1", structure(p1)).arr("du", du).arr("px", px); fprintf(out, "%s\n", w.done().c_str()); }
+                else { vj::W w; w.str("font", font.substr(font.rfind('/') + 1)).i("line", ln).i("upem", upem).i("p2", p2).i("j", 0).str("s0", structure(p0)).str("s1", structure(p1)).arr("du", du).arr("px", px); fprintf(out, "%s\n", w.done().c_str()); }
+                // the same relation after the segment has been cut into two lines and the second one justified (every fourth
+                // pair): width, origins and the returned width are handed over in the units of the font used
+                if (s0 && s1 && p0.slots.size() >= 4 && p0.slots.size() == p1.slots.size() && ((ln + p2) & 3) == 0) {
+                    gr_segment *js[2] = { gr_make_seg(0, face, 0, 0, gr_utf8, l.data(), nch, dir), gr_make_seg(gf, face, 0, 0, gr_utf8, l.data(), nch, dir) };
+                    const gr_font *jf[2] = { 0, gf };
+                    const double sc[2] = { 1.0, double(p2) / (2.0 * double(upem)) };
+                    std::vector<long long> jv[2]; bool jok = js[0] && js[1]; double natural = 0;
+                    for (int w = 0; w < 2 && jok; ++w) {
+                        std::vector<const gr_slot *> sl; for (const gr_slot *q = gr_seg_first_slot(js[w]); q; q = gr_slot_next_in_segment(q)) sl.push_back(q);
+                        if (sl.size() != p0.slots.size()) { jok = false; break; }
+                        const size_t cut = sl.size() / 2;
+                        gr_slot_linebreak_before(const_cast<gr_slot *>(sl[cut]));
+                        if (w == 0) { natural = std::fabs(double(gr_slot_origin_X(sl.back())) + gr_slot_advance_X(sl.back(), face, 0) - gr_slot_origin_X(sl[cut])); if (!(natural > 1) || !(natural < 50000)) natural = 1000; }
+                        GRV_WATCHDOG;
+                        const float ret = gr_seg_justify(js[w], sl[cut], jf[w], 1.25 * natural * sc[w], gr_justCompleteLine, 0, 0);
+                        for (size_t k = cut; k < sl.size(); ++k) { jv[w].push_back(q1024(gr_slot_origin_X(sl[k]))); jv[w].push_back(q1024(gr_slot_origin_Y(sl[k]))); jv[w].push_back(q1024(gr_slot_advance_X(sl[k], face, jf[w]))); jv[w].push_back(0); }
+                        jv[w].push_back(q1024(ret)); jv[w].push_back(0); jv[w].push_back(0); jv[w].push_back(0);
+                        for (long long x : jv[w]) if (std::llabs(x) > (w ? 1900000000LL : 61000000LL)) jok = false;
+                    }
+                    if (jok && jv[0].size() == jv[1].size()) { ++pairs; vj::W w; w.str("font", font.substr(font.rfind('/') + 1)).i("line", ln).i("upem", upem).i("p2", p2).i("j", 1).str("s0", "").str("s1", "").arr("du", jv[0]).arr("px", jv[1]); fprintf(out, "%s\n", w.done().c_str()); }
+                    for (int w = 0; w < 2; ++w) if (js[w]) gr_seg_destroy(js[w]);
+                }
                 if (s1) gr_seg_destroy(s1);
                 gr_font_destroy(gf);
             }
